@@ -402,7 +402,10 @@ def run_chain(case, ctx, P):
         _valid_and_rebuildable(ctx, built, m, batches, top, step_i=-1, method=None, kwargs=None)
 
     for i, step in enumerate(case["steps"]):
-        # -- clone (what Mutations.architecture_mutate does first) ---------------------------------
+        # -- clone (what Mutations.architecture_mutate does first; both properties quantify over clone-and-mutate chains.
+        #    Mutating ONE object several times without a clone in between is outside their domain - and not robust on the
+        #    unchanged tree: the dotted wrappers installed at construction keep pointing at sub-modules that a latent mutation
+        #    has replaced - so it is deliberately not generated, see DESIGN 9.5 round 3 / C04c)
         if P == "C03":
             with ctx.promised("C03/clone", top=top, step=i):
                 c = m.clone()
@@ -927,6 +930,22 @@ def exhaustive_scopes(tier):
         ("resnet", resnet, _choices_scalar("add_channel", "remove_channel", "add_block", "remove_block", "numb_new_channels", (2, 4, 8)),
          4 if deep else 2),
     ]
+    # multi-input module with its latent width AT the upper bound: add_latent_node is a no-op, remove_latent_node is real; nested
+    # encoder mutations interleave with the module's own latent mutations (which rebuild every nested encoder)
+    multi = {"kind": "multi", "bounds": "tight", "space": {"type": "dict", "vec": 3, "img": [2, 8, 8], "seq": None, "disc": 0},
+             "kw": {"num_outputs": 2, "latent_dim": 16, "min_latent_dim": 8, "max_latent_dim": 16, "vector_space_mlp": True,
+                    "cnn_config": {"channel_size": [4], "kernel_size": [3], "stride_size": [1], "min_channel_size": 2, "max_channel_size": 12,
+                                   "min_hidden_layers": 1, "max_hidden_layers": 2, "activation": "ReLU"},
+                    "mlp_config": {"hidden_size": [8], "min_hidden_layers": 1, "max_hidden_layers": 2, "min_mlp_nodes": 4, "max_mlp_nodes": 16,
+                                   "activation": "ReLU"}}}
+    multi_choices = [("add_latent_node", {"numb_new_nodes": 8}), ("remove_latent_node", {"numb_new_nodes": 8}),
+                     ("feature_net.img.add_channel", {"hidden_layer": 0, "numb_new_channels": 4}),
+                     ("feature_net.img.remove_channel", {"hidden_layer": 0, "numb_new_channels": 2}),
+                     ("feature_net.img.change_kernel", {}),
+                     ("feature_net.vector_mlp.add_node", {"hidden_layer": 0, "numb_new_nodes": 4}),
+                     ("feature_net.vector_mlp.remove_node", {"hidden_layer": 0, "numb_new_nodes": 4}),
+                     ("feature_net.vector_mlp.add_layer", {}), ("feature_net.img.add_layer", {})]
+    scopes.append(("multi_input", multi, multi_choices, 3 if deep else 2))
     enc = {"hidden_size": [8], "min_hidden_layers": 1, "max_hidden_layers": 2, "min_mlp_nodes": 4, "max_mlp_nodes": 16, "activation": "ReLU"}
     head = {"hidden_size": [8], "min_hidden_layers": 1, "max_hidden_layers": 2, "min_mlp_nodes": 4, "max_mlp_nodes": 16, "activation": "ReLU"}
     net_choices = ([("add_latent_node", {"numb_new_nodes": n}) for n in (4, 8)] + [("remove_latent_node", {"numb_new_nodes": n}) for n in (4, 8)]
